@@ -78,6 +78,12 @@ CLAIMED = {
                      "new real instances in one-to-one correspondence with the satisfying assignments: each instance's fields are "
                      "the values of ONE assignment (identity of pool objects and of the very proxy values), each satisfying "
                      "assignment has its instance, and the count equals the z3 count of satisfying assignments."),
+    "C12": dict(design_ref="DESIGN.md 7/C12",
+                text="Bounded-exhaustive symbolic execution: ALL rule trees of the grammar (base; chains of alternatives; "
+                     "refinements under base / refinements / alternatives; alternatives inside refinement blocks) with up to 5 "
+                     "branches (6 thorough) are built through refinement()/alternative()/Add; every branch condition is a fresh "
+                     "symbolic comparison, so all 2^B firing patterns per object are decided by z3; the produced (type, object) "
+                     "multiset is proved equal to a recursive reference interpreter, also on re-evaluation and with caching off."),
 }
 
 NOT_APPLICABLE = {pid: PENDING for pid in ["C%02d" % i for i in range(1, 21)] if pid not in CLAIMED}
